@@ -1,0 +1,6 @@
+//go:build !verif
+
+package api
+
+// VerifCrashPoint is a no-op unless built with the "verif" tag.
+func VerifCrashPoint(string) {}
